@@ -85,12 +85,48 @@ func checkRunBlocks(x *parserExec) {
 			x.excludedD18++
 			continue
 		}
+		if len(b.Lits) > bound && !strictKnown() && runTailBehindOldSource(x.cc, b, bound) {
+			// Known finding D22: the last match of the block copies from an
+			// older run and ends where that source ends, one or two bytes
+			// in front of the block end; bytes that are fewer than a
+			// minimum match cannot become a sequence any more.
+			x.excludedD22++
+			continue
+		}
 		if len(b.Lits) > bound {
 			x.report("C19", "block %d at stream position %d (%d bytes, all %#x) carries %d literal bytes; at most %d allowed (%d sequences)",
 				i, b.W, b.N, c, len(b.Lits), bound, len(b.Seqs))
 			return
 		}
 	}
+}
+
+// runTailBehindOldSource delimits the known finding D22 (hash parsers). It
+// tells whether everything beyond the allowed literal bytes of the block is a
+// tail of fewer than the minimum match length bytes behind the last match, and
+// that match - taken from a candidate in an older run of the same byte - could
+// not be extended: the byte behind its source is not the run byte.
+func runTailBehindOldSource(cc PCfg, b blockRec, bound int) bool {
+	switch cc.Kind {
+	case "HP", "BHP", "DHP", "BDHP", "BUP":
+	default:
+		return false
+	}
+	if len(b.Seqs) == 0 {
+		return false
+	}
+	covered := 0
+	for _, s := range b.Seqs {
+		covered += int(s.LitLen) + int(s.MatchLen)
+	}
+	tail := b.N - covered
+	if tail < 1 || tail >= cc.MinMatch() || len(b.Lits)-tail > bound {
+		return false
+	}
+	last := b.Seqs[len(b.Seqs)-1]
+	end := b.W + covered // absolute position behind the last match
+	src := end - int(last.Offset)
+	return src >= 0 && src < len(b.Fed) && b.Fed[src] != b.Fed[b.W]
 }
 
 // gsapOutOfWindowNeighbours delimits the known finding D18. It tells whether
@@ -318,6 +354,9 @@ func TestC19Runs(t *testing.T) {
 				}
 				for i := 0; i < x.excludedD18; i++ {
 					st.exclude("D18-gsap-neighbours-outside-window")
+				}
+				for i := 0; i < x.excludedD22; i++ {
+					st.exclude("D22-tail-behind-match-from-older-run")
 				}
 				c := x.Case()
 				st.eval(cl, x.runBlocksAfterShrink > 0, hashJSON(c), "runs-"+kind, func() any { return c })
